@@ -120,6 +120,10 @@ HAND = [
     "hostlist()", "hostlist().insert(0, 1)", "hostlist() + [4]",
     "hostset($.list)", "hostset($.list).len()", "ctxset($.dict)",
     "[hostset(1), $hv]", "[ctxset(2), $cv]", "hostset($hostvar)",
+    "call(len, [$.list], $.kw)", "call('len', [$.list], $.kw)",
+    "call(join, [$.strs], $.kw2)", "call(len, [$.list], $hostkw)",
+    "call(str, [$.n], $.kw)", "$.kw", "$.kw + {z => 1}", "$.kw.keys()",
+    "$.kw.get('-x')", "$hostkw", "$.kw.set('-y', 1)",
     "probe($.n)", "$.list.select(probe($))", "$.nested.select(probe($))",
     "$.list.where(probe($) > 1).select(probe($))",
     "$.recs.select(probe($.name))", "[probe(1), $.list.orderBy(probe($))]",
@@ -147,7 +151,11 @@ def gen_doc(w):
         'recs': [{'name': w.choice(['n1', 'n2', 'n3']), 'v': w.randrange(4),
                   'tags': [w.randrange(3)]} for _ in range(w.choice([0, 1, 2, 3]))],
         'n': w.randrange(10), 's': w.choice(['hello', 'abc', '', 'a b']),
-        'none': None}}
+        'none': None,
+        # keys that are not yaql keywords (filtered / special-cased by
+        # helpers that treat dicts as keyword arguments)
+        'kw': {'-x': 1, '1st': [2], 'a b': {'q': 1}, '$v': 3},
+        'kw2': {'sep': ',', '-bad': 1}}}
 
 
 def build_doc(spec):
@@ -243,6 +251,13 @@ def gen_case(seeds, params, index):
             op['target'] = 'none'
         elif w.random() < 0.05:
             op['target'] = 'none'
+        elif s['kind'] == 'text' and s['flavour'] == 'default' and \
+                w.random() < 0.12:
+            # the other host API: a YaqlInterface built over the host's own
+            # context, called with extra positional / keyword arguments
+            op['via'] = 'yi'
+            op['target'] = w.choice(['P', 'C'])
+            op['co'] = True
         if faulty and f.random() < 0.45 and op['target'] in ('child', 'C'):
             k = f.choice(['stream', 'stream', 'probe', 'probe', 'limit',
                           'quota', 'abandon'])
@@ -318,6 +333,7 @@ class Host:
             P.register_function(hostlist_, name='hostlist')
             P['hostvar'] = [1, 2, [3]]
             P['hostdict'] = {'k': [1], 'm': {'z': 1}}
+            P['hostkw'] = {'-x': 1, '1st': 2, 'a b': [3]}
             for k, v in synth.std_vars().items():
                 P[k] = v
             C = P.create_child_context()
@@ -332,6 +348,7 @@ class Host:
         for fl in self.layers:
             container_ids(self.layers[fl]['P']['hostvar'], self.host_ids)
             container_ids(self.layers[fl]['P']['hostdict'], self.host_ids)
+            container_ids(self.layers[fl]['P']['hostkw'], self.host_ids)
         container_ids(self.hostlist, self.host_ids)
         self.hostlist_pristine = ser.ser_value(self.hostlist)
         self.stmt_cache = {}
@@ -531,12 +548,20 @@ def execute(case, stats):
                 ctx = L['P'].create_child_context()
             elif tgt == 'P':
                 ctx = L['P']
-                host.dollar_ok[fl].add('P')
+                if op.get('via') != 'yi':
+                    host.dollar_ok[fl].add('P')
             elif tgt == 'C':
                 ctx = L['C']
-                host.dollar_ok[fl].add('C')
+                if op.get('via') != 'yi':
+                    host.dollar_ok[fl].add('C')
             else:
                 ctx = None
+            via_yi = op.get('via') == 'yi' and not fault and \
+                case['stmts'][op['stmt']]['kind'] == 'text'
+            if via_yi:
+                # YaqlInterface derives its own child: the host context must
+                # stay untouched, including `$`
+                ctx = L['P'] if tgt == 'P' else L['C']
             if fault and tgt == 'C':
                 ctx = L['C'].create_child_context()
             data = utils.NO_VALUE if op['doc'] is None else host.docs[op['doc']]
@@ -553,7 +578,18 @@ def execute(case, stats):
             aborted = False
             _calls[0] = 0
             try:
-                r = st.evaluate(data=data, context=ctx)
+                if via_yi:
+                    from yaql import yaql_interface
+                    yi = yaql_interface.YaqlInterface(ctx, st.engine)
+                    args = () if data is utils.NO_VALUE else (data,)
+                    r = yi(case['stmts'][op['stmt']]['expr'], *args,
+                           **{'who': 'x', 'items': [1, 2]}) \
+                        if not args else \
+                        yi(case['stmts'][op['stmt']]['expr'], data, 7,
+                           who='x', items=[1, 2])
+                    stats.inc('probe.evaluations_via_yaql_interface')
+                else:
+                    r = st.evaluate(data=data, context=ctx)
                 if fault and fault[0] == 'abandon':
                     it = iter(r) if utils.is_iterator(r) else None
                     if it is not None:
@@ -635,7 +671,7 @@ def execute(case, stats):
             # I4: history independence
             if not viols and not fault:
                 key = (op['stmt'], op['doc'], op['ci'], op['co'],
-                       'none' if tgt == 'none' else 'host')
+                       'none' if tgt == 'none' else 'host', bool(via_yi))
                 prev = first.get(key)
                 if prev is None:
                     first[key] = (outcome, step, nabort)
@@ -649,7 +685,7 @@ def execute(case, stats):
                         # must be stable, and two *different exception
                         # classes* are never taken as a verdict.
                         stable = True
-                        for _ in range(6):
+                        for _ in range(0 if via_yi else 6):
                             try:
                                 c2 = ctx if tgt in ('P', 'C', 'none') else \
                                     L['P'].create_child_context()
